@@ -330,6 +330,14 @@ pub fn run_thr(trace: &Trace) -> (RunReport, Vec<u8>) {
                     r.invoke as usize,
                     r.op.key(),
                 );
+                if msg.contains("assertion `left == right` failed") {
+                    rep.viol(
+                        "C10.counters-changed-under-maintenance",
+                        format!("T{} {}: {}", r.tid, r.op.name(), msg.replace('\n', " ")),
+                        r.invoke as usize,
+                        r.op.key(),
+                    );
+                }
             }
         }
     }
@@ -1004,6 +1012,117 @@ fn judge_history(
 }
 
 // ------------------------------------------------------------------------------------------
+// engine `miri`: the same programs, baton off (run under `cargo miri`)
+// ------------------------------------------------------------------------------------------
+
+/// Runs the threads of a thr trace *freely* (no scheduler installed), then checks what
+/// does not depend on a recorded schedule. Meant to be executed under Miri, whose own
+/// seeded scheduler explores interleavings below switch-point granularity and reports
+/// data races and undefined behaviour. Returns the violations found by the harness.
+pub fn run_free(trace: &Trace) -> Vec<String> {
+    let cfg = &trace.config;
+    let reg = Registry::new();
+    let clock = VerifClock::new();
+    let base = clock.now();
+    let cache = build_sync(cfg, &reg, &clock);
+    let mut problems = Vec::new();
+    let mut written: BTreeMap<u32, u16> = BTreeMap::new();
+    for rec in &trace.prologue {
+        if let Op::Insert { k, vid, w } = &rec.op {
+            cache.insert(K::tracked(*k, &reg), V::new(*vid, *w, &reg));
+            written.insert(*vid, *k);
+        }
+    }
+    for t in &trace.threads {
+        for r in t {
+            if let Op::Insert { k, vid, .. } = &r.op {
+                written.insert(*vid, *k);
+            }
+        }
+    }
+    let mut handles = Vec::new();
+    for prog in trace.threads.iter() {
+        let prog = prog.clone();
+        let c = cache.clone();
+        let reg = Arc::clone(&reg);
+        let clock = clock.clone();
+        handles.push(std::thread::spawn(move || {
+            let mut seen: Vec<(u16, u32)> = Vec::new();
+            for rec in &prog {
+                match &rec.op {
+                    Op::Insert { k, vid, w } => c.insert(K::tracked(*k, &reg), V::new(*vid, *w, &reg)),
+                    Op::Get { k } => {
+                        if let Some(v) = c.get(&K::probe(*k)) {
+                            seen.push((*k, v.id));
+                        }
+                    }
+                    Op::Contains { k } => {
+                        let _ = c.contains_key(&K::probe(*k));
+                    }
+                    Op::Iter | Op::IterBegin => {
+                        for e in c.iter() {
+                            seen.push((e.key().k, e.value().id));
+                        }
+                    }
+                    Op::Invalidate { k } => c.invalidate(&K::probe(*k)),
+                    Op::InvalidateAll => c.invalidate_all(),
+                    Op::Sync => mini_moka::sync::ConcurrentCacheExt::sync(&c),
+                    Op::Advance { ns } => clock.advance(Duration::from_nanos(*ns)),
+                    Op::DropHandle => break,
+                    _ => {}
+                }
+            }
+            seen
+        }));
+    }
+    for h in handles {
+        match h.join() {
+            Ok(seen) => {
+                for (k, v) in seen {
+                    if written.get(&v) != Some(&k) {
+                        problems.push(format!("a lookup of key {} returned value {} which nobody wrote to it", k, v));
+                    }
+                }
+            }
+            Err(p) => problems.push(format!("a thread panicked: {}", payload_str(&p))),
+        }
+    }
+    mini_moka::sync::ConcurrentCacheExt::sync(&cache);
+    mini_moka::sync::ConcurrentCacheExt::sync(&cache);
+    let snap = sync_snapshot(&cache, base, cfg.weigher);
+    for e in &snap.errors {
+        problems.push(format!("walker: {}", e));
+    }
+    if snap.read_queue_len == 0 && snap.write_queue_len == 0 {
+        let n = snap.entries.len() as u64;
+        let w: u64 = snap.entries.iter().map(|e| e.weight as u64).sum();
+        if snap.entry_count != n || snap.weighted_size != w {
+            // counters may legitimately lag only through the recorded findings; report
+            problems.push(format!(
+                "counters ({}, {}) differ from the physical content ({}, {})",
+                snap.entry_count, snap.weighted_size, n, w
+            ));
+        }
+        if reg.live_vals() != n as i64 {
+            problems.push(format!("{} value objects alive, {} entries resident", reg.live_vals(), n));
+        }
+    }
+    for e in &snap.entries {
+        if written.get(&(e.value as u32)).map(|k| *k as u64) != Some(e.key) {
+            problems.push(format!("key {} holds value {} which nobody wrote to it", e.key, e.value));
+        }
+    }
+    drop(cache);
+    if !reg.double_drops().is_empty() {
+        problems.push("objects dropped more than once".into());
+    }
+    if !reg.leaked().is_empty() {
+        problems.push(format!("{} objects never dropped", reg.leaked().len()));
+    }
+    problems
+}
+
+// ------------------------------------------------------------------------------------------
 // generation
 // ------------------------------------------------------------------------------------------
 
@@ -1028,6 +1147,7 @@ pub fn generate(pop: &str, seed: u64, run: u64) -> Option<Trace> {
     let mut prologue = Vec::new();
     let mut threads: Vec<Vec<OpRec>> = Vec::new();
     let mut engine = Engine::Thr;
+    let mut burst_stall = false;
     match pop {
         "thr-mixed" | "thr-strict" | "thr-expiry" => {
             let nthreads = rng.range(2, 4) as usize;
@@ -1063,8 +1183,22 @@ pub fn generate(pop: &str, seed: u64, run: u64) -> Option<Trace> {
             }
             let with_clock = cfg.has_expiry() || rng.chance(1, 3);
             let faulty = rng.chance(1, 2);
+            // advances that land around the configured deadlines
+            let mut adv_set: Vec<u64> = vec![1, 1, MS, 501 * MS, SEC, SEC, 3 * SEC];
+            if pop == "thr-expiry" {
+                for d in [cfg.ttl, cfg.tti].into_iter().flatten() {
+                    for a in [d / 2, d / 2 + MS, d.saturating_sub(1), d, d + 1] {
+                        if a > 0 {
+                            adv_set.push(a);
+                            adv_set.push(a);
+                        }
+                    }
+                }
+            }
+            let nkeys = if pop == "thr-expiry" && rng.chance(1, 2) { 1 } else { nkeys };
+            let max_len = if pop == "thr-expiry" { 8 } else { 6 };
             for t in 0..nthreads {
-                let len = rng.range(1, 6) as usize;
+                let len = rng.range(1, max_len) as usize;
                 let mut prog = Vec::new();
                 let maint_thread = t == nthreads - 1 && nthreads > 2 && rng.chance(1, 4);
                 for i in 0..len {
@@ -1085,7 +1219,7 @@ pub fn generate(pop: &str, seed: u64, run: u64) -> Option<Trace> {
                             5 => Op::InvalidateAll,
                             6 => Op::Sync,
                             _ => Op::Advance {
-                                ns: *rng.pick(&[1u64, 1, MS, 501 * MS, SEC, SEC, 3 * SEC]),
+                                ns: *rng.pick(&adv_set),
                             },
                         }
                     };
@@ -1165,12 +1299,25 @@ pub fn generate(pop: &str, seed: u64, run: u64) -> Option<Trace> {
                 cfg.tti = None;
             }
             let n = *rng.pick(&[385usize, 400, 600, 1000, 1000, 2500]);
-            let nthreads = if rng.chance(1, 3) { 2 } else { 1 };
+            // "stall" scenario: a second thread wins the maintenance flag with its first
+            // operation and is then starved inside Inner::sync while the first thread keeps
+            // inserting (only the bounded write queue limits the overshoot)
+            let stall = rng.chance(1, 3);
+            let nthreads = if stall || rng.chance(1, 3) { 2 } else { 1 };
             let regime_b = rng.chance(1, 2);
             let contended = rng.chance(1, 2);
             let universe = *rng.pick(&[4u16, 64, 3000]);
             for t in 0..nthreads {
                 let mut prog = Vec::new();
+                if t == 1 && stall {
+                    prog.push(OpRec::plain(Op::Insert { k: 7, vid: next_vid, w: 1 }));
+                    next_vid += 1;
+                    for _ in 0..rng.range(1, 4) {
+                        prog.push(OpRec::plain(Op::Get { k: rng.below(universe as u64) as u16 }));
+                    }
+                    threads.push(prog);
+                    continue;
+                }
                 if t == 1 && rng.chance(1, 2) {
                     // a second thread that only triggers maintenance / reads
                     for _ in 0..rng.range(3, 30) {
@@ -1179,7 +1326,7 @@ pub fn generate(pop: &str, seed: u64, run: u64) -> Option<Trace> {
                     threads.push(prog);
                     continue;
                 }
-                let mine = n / nthreads;
+                let mine = if stall { n } else { n / nthreads };
                 for _ in 0..mine {
                     if regime_b && rng.chance(1, 40) {
                         prog.push(OpRec::plain(Op::Advance { ns: 501 * MS }));
@@ -1201,9 +1348,12 @@ pub fn generate(pop: &str, seed: u64, run: u64) -> Option<Trace> {
                 }
                 threads.push(prog);
             }
-            if regime_b {
+            if regime_b && !stall {
                 prologue.clear();
                 threads[0].insert(0, OpRec::plain(Op::Advance { ns: 501 * MS }));
+            }
+            if stall {
+                burst_stall = true;
             }
         }
         _ => return None,
@@ -1217,12 +1367,18 @@ pub fn generate(pop: &str, seed: u64, run: u64) -> Option<Trace> {
     };
     let d = rng.range(1, 3) as usize;
     let change_points: Vec<usize> = (0..d).map(|_| rng.below(expected_steps as u64) as usize).collect();
-    let fair_after = if engine == Engine::Burst {
+    let fair_after = if burst_stall {
+        350 * total
+    } else if engine == Engine::Burst {
         (expected_steps as u64 * rng.range(1, 3) / 2) as usize
     } else {
         rng.range(expected_steps as u64 / 2, expected_steps as u64 * 2) as usize
     };
-    let starve = if rng.chance(1, 4) && threads.len() > 1 {
+    let starve = if burst_stall {
+        // thread 1 is parked soon after it entered maintenance, for most of the run
+        let a = rng.range(6, 14) as usize;
+        Some((1usize, a, a + 300 * total))
+    } else if rng.chance(1, 4) && threads.len() > 1 {
         let a = rng.below(expected_steps as u64) as usize;
         Some((rng.below(threads.len() as u64) as usize, a, a + rng.range(5, 60) as usize))
     } else {
